@@ -534,6 +534,11 @@ class Machine:
             fac = g.factors[name]
             new = leaf.grad
             old = grads0[name]
+            if old is not None and not bool(torch.isfinite(old).all()):
+                # the accumulated .grad already held inf/nan from an earlier backward (divergent grammar): the increment of
+                # this backward cannot be recovered by subtraction
+                self.c.inc('probe.deferred-backward.accumulated-grad-nonfinite')
+                continue
             delta = (torch.zeros_like(leaf) if new is None else new) - (torch.zeros_like(leaf) if old is None else old)
             # restrict to this factor's elements, densely
             ph = fac.weights.physical
